@@ -107,6 +107,18 @@ def reMatch (p : Re) (s : Str) : Bool := (pyMatch T p s).isSome
 def reSearch (p : Re) (s : Str) : Bool := (pySearch T p s).isSome
 def reFullmatch (p : Re) (s : Str) : Bool := (pyFullmatch T p s).isSome
 
+/-- `re.split(p, s)` for a pattern without groups that cannot match the empty string (the translator checks both) -/
+def reSplitAux (p : Re) : Nat → Str → Str → Str → List Str
+  | 0, _, cur, rest => [cur.reverse ++ rest]
+  | _ + 1, _, cur, [] => [cur.reverse]
+  | n + 1, pre, cur, c :: cs =>
+    match matchAt T p pre (c :: cs) with
+    | some st =>
+      if st.pre.length ≤ pre.length then reSplitAux p n (c :: pre) (c :: cur) cs
+      else cur.reverse :: reSplitAux p n st.pre [] st.rest
+    | none => reSplitAux p n (c :: pre) (c :: cur) cs
+def reSplit (p : Re) (s : Str) : List Str := reSplitAux p (s.length + 1) [] [] s
+
 def strIn (x : Str) (xs : List Str) : Bool := xs.contains x
 
 end GapicModel.PyRt
